@@ -430,7 +430,7 @@ _ADD = {
            "struct fields, case folding) and the anchor string is parsed from its text; the safety theorems (distinct suffixes, count = "
            "anchor count, size / decompression / URI limits, proof-reference discipline, bad file => the transaction fails) are "
            "restated for get_txn_operations on bytes; tied to the real decoders and provider by gen_files (value- and text-level "
-           "mutations of real file sets, arbitrary bytes). gzip and the CAS remain facts.",
+           "mutations of real file sets, arbitrary bytes). gzip and the CAS remain facts. Per-type limits at provider level (Batch/PerType.v): every file a successful read used met the limit of its own type; one real provider is driven through one object in two roles (two_roles cases: limits hold on every read, whatever was read before).",
     "C13": " The per-file round trip is proved at byte level (Batch/FilesOfBytesProofs.v): decoding the canonical JSON text of a file "
            "struct returns it, and every file the real handler writes is checked to be the canonical text of its decoded struct.",
     "C12": " At resolve level, without the 'follows' hypothesis: NoDup of the commitments revealed by the applied recover/deactivate "
